@@ -182,7 +182,9 @@ impl<F: FixedChannelRegion> RegionHandler for FixedChannelPlan<F> {
     }
 
     fn get_datarate(&self, dr: u8) -> Option<&Datarate> {
-        F::datarates()[dr as usize].as_ref()
+        // `dr` comes straight from received frames (eg: the RX2 data rate of a JoinAccept) and
+        // can be 15, one past the table.
+        F::datarates().get(dr as usize)?.as_ref()
     }
 
     fn select_tx_channel<RNG: RngCore>(
